@@ -69,6 +69,12 @@ def run_wellformed(ctx, bt, spec):
         msg = str(e)
         if kind.startswith("PaperRun") and spec["dates"] and "price is nan as of" in msg:
             key = "C10/wellformed-raised:paper-copy-runs-on-synthetic-row"
+        # the share-sizing search of SecurityBase.allocate raising inside a whole backtest: one call site, keyed by which of its
+        # three raise statements fired (the per-commission witnesses of the same defect are the `alloc` corpus)
+        for tag, frag in (("SizingDiverged", "has gotten bigger since last iteration"), ("SizingStuck", "root search for quantity is stuck"),
+                          ("SizingIterCap", "Potentially infinite loop")):
+            if frag in msg:
+                key = "C10/wellformed-raised:%s:in-backtest" % tag
         import traceback as _tb
         frames = []
         ee = e
@@ -263,6 +269,11 @@ def run(ctx, bt, scale=1):
         ctx.evaluations += 1
         run_alloc_witness(ctx, bt, case)
     pp = os.path.join(HERE, "corpus", "C10_paper_synthetic_row.json")
+    if os.path.exists(pp):
+        for sp in json.load(open(pp)):
+            ctx.evaluations += 1
+            run_wellformed(ctx, bt, sp)
+    pp = os.path.join(HERE, "corpus", "C10_sizing_in_backtest.json")
     if os.path.exists(pp):
         for sp in json.load(open(pp)):
             ctx.evaluations += 1
